@@ -29,20 +29,36 @@
       SwapSectors / TrimSectors / UpdateSector; the peer learns whether the action was accepted, not the
       updater's list.  [HAct] is Model.v's [Act] with the observation cut down to that.
 
+   3. (round 2) The expiry of root rows and the v2 status guard.  Manager.ProcessActions ends with
+      Store.ExpireContractSectors / ExpireV2ContractSectors (persist/sqlite/contracts.go
+      deleteExpired(V2)ContractSectors): DELETE the root rows of every contract that is REJECTED (or past
+      its window / expiration height: not reached in the histories of this layer).  The manager's cache
+      entry stays.  [HExpire] records the contracts whose rows are gone in [hexp]; the manager / session
+      state [hS] keeps the rows as a ghost and what the database holds is [hreal] = the ghost with the rows
+      of the [hexp] contracts erased — [Look1] / [Look2] answer from it.  This is sound for the code WITH
+      fixes/C03-v2-rejected-contract-not-revisable.patch, which the model contains: a rejected contract
+      refuses every call that would read or write its rows (v1: isGoodForModification as above; v2, the
+      patch: LockV2Contract reports Revisable = false, ReviseV2Contract and RenewV2Contract refuse), so the
+      ghost rows of a contract in [hexp] are never looked at again.  Without the patch the v2 path reads no
+      status: Model.v's [Revise2] run on [hreal] is what the code does then, and it breaks C03
+      (HandProofs.v rejected_v2_revised_refuted).  Not modelled after an expiry: Prune / Located /
+      CountSectors (they see the erased rows) and the cache entry of an [hexp] contract after a restart.
+
    A missing entry of the status table stands for "as formed" (pending): Form1 / Form2 / an accepted renewal
    need no step of their own here. *)
 From HostdBase Require Import Base.
 From HostdRoots Require Import Model Sess Chain.
 Open Scope N_scope.
 
-Record hstate := mkh { hS : sstate; hst : list (cid * cstatus) }.
-Definition hinit : hstate := {| hS := sinit; hst := [] |}.
-Definition set_hS (H : hstate) (S : sstate) : hstate := {| hS := S; hst := hst H |}.
+Record hstate := mkh { hS : sstate; hst : list (cid * cstatus); hexp : list cid }.
+Definition hinit : hstate := {| hS := sinit; hst := []; hexp := [] |}.
+Definition set_hS (H : hstate) (S : sstate) : hstate := {| hS := S; hst := hst H; hexp := hexp H |}.
 
 Inductive hop :=
 | HS (e : sop)                          (* an event of Sess.v *)
 | HAct (t : sid) (u : N) (a : action)   (* an updater action of session t's handler *)
-| HStatus (id : cid) (st : cstatus).    (* the chain subscriber writes the status of contract id *)
+| HStatus (id : cid) (st : cstatus)     (* the chain subscriber writes the status of contract id *)
+| HExpire.                              (* ExpireContractSectors + ExpireV2ContractSectors: the rows of rejected contracts *)
 
 Inductive hobs :=
 | HSeen (o : sobs')
@@ -56,6 +72,15 @@ Definition usable (st : option cstatus) : bool :=
   | _ => false
   end.
 Definition hstatus (H : hstate) (id : cid) : option cstatus := alookup id (hst H).
+Definition is_rej (H : hstate) (id : cid) : bool :=
+  match hstatus H id with Some CRejected => true | _ => false end.
+
+(* what the database holds: the root rows of the contracts in [dead] are deleted *)
+Definition erase_rows (dead : list cid) (t : list (cid * ct)) : list (cid * ct) :=
+  map (fun p => if mem (fst p) dead then (fst p, with_rows (snd p) []) else p) t.
+Definition hreal (H : hstate) : state :=
+  let s := sb (hS H) in
+  set_dbs s (set_t2 (set_t1 (dbs s) (erase_rows (hexp H) (t1 (dbs s)))) (erase_rows (hexp H) (t2 (dbs s)))).
 
 (* Manager.Revisable on a contract whose status is neither pending nor active: Store.Contract (one read
    transaction, which an injected store failure can hit), then the refusal *)
@@ -68,13 +93,26 @@ Definition refused_res (s : state) (id : cid) (fault : option nat) : res unit :=
   | Panic => Panic
   end.
 
+(* the same for the v2 calls of the patch: Store.V2Contract, then "rejected contracts cannot be revised / renewed" *)
+Definition refused_res2 (s : state) (id : cid) (fault : option nat) : res unit :=
+  match (mdo _ <- store_get (t2 (dbs s)) id; lift (Err EInvalid) : M unit) fault with
+  | Ok _ => Err EInvalid
+  | Err e => Err e
+  | Panic => Panic
+  end.
+
 (* the answer of an event that isGoodForModification stops on the status; None = the status has no say
    (the event does not read it, the contract does not exist, the lock is busy, the status is fine) *)
 Definition status_stop (H : hstate) (e : sop) : option sobs :=
   let S := hS H in
   let s := sb S in
   let bad id := opt_is_some (alookup id (t1 (dbs s))) && negb (usable (hstatus H id)) in
+  let bad2 id := opt_is_some (alookup id (t2 (dbs s))) && is_rej H id in
   match e with
+  | SOp _ (Revise2 id _ _ _ _ _ fault) =>
+      if bad2 id then Some (SO (ORes (refused_res2 s id fault))) else None
+  | SOp _ (Renew2 old _ _ _ true fault) | SRenewH _ true (Renew2 old _ _ _ true fault) =>
+      if bad2 old then Some (SO (ORes (refused_res2 s old fault))) else None
   | SAcq1 _ id =>
       if lock_free S id && bad id then Some (SOLock1 (Err EInvalid)) else None
   | SOp _ (Lock1 id) =>
@@ -91,6 +129,21 @@ Definition status_stop (H : hstate) (e : sop) : option sobs :=
   | _ => None
   end.
 
+(* LockV2Contract of the patch: Revisable = not renewed, not REJECTED, below the last revisable height *)
+Definition patch_lock2 (H : hstate) (e : sop) (o : sobs) : sobs :=
+  match e, o with
+  | SAcq2 _ id, SO (OLock2 (Ok (r, rn, rv, l))) | SOp _ (Lock2 id), SO (OLock2 (Ok (r, rn, rv, l))) =>
+      SO (OLock2 (Ok (r, rn, rv && negb (is_rej H id), l)))
+  | _, _ => o
+  end.
+(* Store.SectorRoots / V2SectorRoots read what the database holds *)
+Definition patch_look (H : hstate) (e : sop) (o : sobs) : sobs :=
+  match e, o with
+  | SOp _ (Look1 id), SO (OLook f d c r z m t fr) | SOp _ (Look2 id), SO (OLook f d c r z m t fr) =>
+      if mem id (hexp H) then SO (OLook f [] c r z m t fr) else o
+  | _, _ => o
+  end.
+
 Definition act_res (o : sobs) : hobs :=
   match o with
   | SO (OAct r _) => HORes r
@@ -103,13 +156,18 @@ Definition hstep (H : hstate) (e : hop) : hstate * hobs :=
       if sownb (hS H) e0 then
         match status_stop H e0 with
         | Some ob => (H, hs ob)
-        | None => let '(S', ob) := sstep faithful (hS H) e0 in (set_hS H S', hs ob)
+        | None => let '(S', ob) := sstep faithful (hS H) e0 in
+                  (set_hS H S', hs (patch_look H e0 (patch_lock2 H e0 ob)))
         end
       else (H, HSeen SOutsideLock)
   | HAct t u a =>
       let '(S', ob) := sstep faithful (hS H) (SOp t (Act u a)) in (set_hS H S', act_res ob)
   | HStatus id st =>
-      ({| hS := hS H; hst := aset id st (hst H) |}, HORes (Ok tt))
+      ({| hS := hS H; hst := aset id st (hst H); hexp := hexp H |}, HORes (Ok tt))
+  | HExpire =>
+      let s := sb (hS H) in
+      let rej := filter (fun id => is_rej H id && negb (mem id (hexp H))) (map fst (t1 (dbs s)) ++ map fst (t2 (dbs s))) in
+      ({| hS := hS H; hst := hst H; hexp := hexp H ++ rej |}, HORes (Ok tt))
   end.
 
 Definition hruns (H : hstate) (evs : list hop) : hstate := fold_left (fun H e => fst (hstep H e)) evs H.
